@@ -294,7 +294,18 @@ func (m *obsModel) observe(n *e1Node, e *logEntry, outs []outMsg, before *priv) 
 		}
 	case robust.Config:
 		if cfg, err := config.FromString(msg.Data); err == nil {
-			m.cfgs = append(m.cfgs, cfgPoint{e.Index, time.Duration(cfg.SessionExpiration)})
+			// what the update specifies, decoded independently of the code under test
+			var raw map[string]interface{}
+			specified := time.Duration(0)
+			if _, derr := toml.Decode(msg.Data, &raw); derr == nil {
+				if sv, ok := raw["SessionExpiration"].(string); ok {
+					if d, perr := time.ParseDuration(sv); perr == nil {
+						specified = d
+					}
+				}
+			}
+			_ = cfg
+			m.cfgs = append(m.cfgs, cfgPoint{e.Index, specified})
 			// C16: an applied update is in force from this position on, with the revision the entry names
 			if after.Revision != msg.Revision {
 				r.violate("C16", "config-not-installed", "config-not-installed", fmt.Sprintf("index %d: parsable config with revision %d applied, revision in force afterwards is %d", e.Index, msg.Revision, after.Revision))
@@ -1192,7 +1203,9 @@ func (m *obsModel) checkLookup(n *e1Node, id uint64, err error) {
 func (m *obsModel) checkExpiry(now time.Time, msgs []*robust.Message) {
 	r := m.r
 	p := ircserver.VerifPriv(r.nodes[0].irc)
-	exp := p.Expiration
+	// the expiration the applied configuration entries specify (the documented default of ten minutes when
+	// the configuration in force does not mention it), not whatever value the server happens to hold
+	exp := m.expirationInForceAt(r.nodes[0].applied)
 	want := map[uint64]bool{}
 	for k, s := range p.Sess {
 		if k[1] != 0 {
